@@ -24,11 +24,13 @@ class Divergence(Exception):
 
 
 class Ctx:
-    __slots__ = ("ex", "prefix", "choices", "points", "cost", "pruned", "trace", "data")
+    __slots__ = ("ex", "prefix", "plen", "choices", "points", "cost", "pruned", "trace", "data", "fast_ok")
 
     def __init__(self, ex, prefix):
         self.ex = ex
         self.prefix = prefix
+        self.plen = len(prefix)
+        self.fast_ok = not ex.keep_trace
         self.choices = []
         self.points = []     # (index, n, costs, cost_before, state) beyond the prefix
         self.cost = 0
@@ -47,6 +49,8 @@ class Ctx:
                 raise Divergence(f"prefix choice {c} out of range {n} at point {i} ({label})")
         else:
             if state is not None and ex.cache is not None:
+                if callable(state):
+                    state = state()
                 rem = (ex.bound - self.cost) if ex.bound is not None else 0
                 prev = ex.cache.get(state)
                 if prev is not None and prev >= rem:
